@@ -839,6 +839,9 @@ class Folder:
                 raise Undecidable(f"membership in opaque {b.text}")
             r = a in b
             return r if isinstance(op, ast.In) else not r
+        if isinstance(op, (ast.Is, ast.IsNot)) and isinstance(a, Opaque) and isinstance(b, Opaque) and a.text.startswith("type:") and b.text.startswith("type:"):
+            r = a.text == b.text                     # `type(x) is int`: builtin types are singletons
+            return r if isinstance(op, ast.Is) else not r
         if isinstance(op, (ast.Is, ast.IsNot)):
             r = (a is b) or (a is None and b is None)
             if not (a is None or b is None or isinstance(a, bool) or isinstance(b, bool)):
